@@ -177,6 +177,8 @@ class Transformer:
 
     def apply_on_melody(self, element, on=Mask(), **kwargs):
         from musiclang import Melody
+        # Freeze the part of the mask that is about this melody before testing the notes
+        on = on.child(element, **kwargs)
         beat = 0
         idx = 0
         last_note = None
@@ -197,9 +199,11 @@ class Transformer:
 
     def apply_on_chord(self, element, on=Mask(), **kwargs):
         from musiclang import Chord
+        # Freeze the part of the mask that is about this chord before testing the melodies
+        on = on.child(element, **kwargs)
         chord = Chord(element.element, extension=element.extension, tonality=element.tonality,
                       score={
-                          key: self(element.score[key], on=on.child(element, **kwargs), chord=element, instrument=key, **kwargs)
+                          key: self(element.score[key], on=on, chord=element, instrument=key, **kwargs)
                           if on(element.score[key], chord=element, instrument=key, **kwargs)
                           else self.get_default(element.score[key]) for key in element.score},
                       octave=element.octave, tags=element.tags)
@@ -207,12 +211,14 @@ class Transformer:
         return chord(**{part: melody for part, melody in chord.score.items() if melody is not None})
 
     def apply_on_score(self, element, on=Mask(), **kwargs):
+        # Freeze the part of the mask that is about this score before testing the chords
+        on = on.child(element, **kwargs)
         beat = 0
         idx = 0
         last_chord = None
         score = None
         for m in element.chords:
-            chord = self(m, on=on.child(element, **kwargs), chord_beat=beat, chord_idx=idx, last_chord=last_chord, **kwargs)\
+            chord = self(m, on=on, chord_beat=beat, chord_idx=idx, last_chord=last_chord, **kwargs)\
                 if on(m, chord_beat=beat, chord_idx=idx, last_chord=last_chord, **kwargs) else self.get_default(m)
             beat += m.duration
             idx += 1
